@@ -9,6 +9,10 @@ for l in open('/verif/properties.jsonl'):
 
 # id -> (technique, level text, level note, design ref, engine)
 CHECKS = {
+    'C01': ("proptest over typed SIP values (methods, URIs in every print context, name-addr, 30 typed header kinds, whole messages through the real send_outgoing_* path) + exhaustive enumeration of all 65 536 status codes; oracle = field-wise comparison with the generated value, RFC 3261 Table 1 expectation rules, print/parse/print fixpoint, independent re-read of the printed text (ref_sip)",
+            "exploration: full u16 code domain exhaustive; all other value kinds sampled with weights on %, reserved and multi-byte characters, Table-1 relevant parameter names, method tokens derived from well-known names",
+            "trusts ref_sip (independent RFC 3261 splitter / percent-decoder), the mock transport; generators stay inside the documented grammars (qdtext display names, raw token components)",
+            "DESIGN.md 3/C01", "E-codec"),
     'C03': ("exhaustive enumeration of 1-cut/2-cut segmentations over a 27-message corpus + proptest over generated message sequences and k-cut/dribble segmentations, fed through the real FramedRead<StreamingDecoder>; oracle = differential against the datagram parser (named by the statement) cross-checked with the generator's record",
             "exploration: every 1-cut of every corpus message and of 2-message pipelines with keep-alive patterns, every 2-cut in thorough (1.18 M segmentations), random sequences with decoy headers, all Content-Length spellings, bodies up to 65535 B, heads up to 4096 B",
             "trusts tokio_util FramedRead, the datagram parser as reference (body and header count cross-checked against the generator), hook H1",
@@ -29,6 +33,14 @@ CHECKS = {
             "exploration: sampled request shapes (Route, display names, IPv6, Via override) and response histories (forks, retransmitted finals around 32 s and 64*T1); decides ACK presence per response, ACK header equality, destination, and the receive() sequence",
             "trusts tokio's paused clock, hook H2, the WireMsg reader, the mock transport",
             "DESIGN.md 3/C07", "E-world"),
+    'C08': ("proptest over layer stacks (per-method policies, DialogLayer with usages, InviteLayer) and concurrent request mixes under a paused tokio clock; oracle = reference walk of the stack predicting the single final status per (branch, CSeq) from the wire log",
+            "exploration: sampled stacks of 1..4 policy layers with DialogLayer at any position, 1..4 requests (out-of-dialog, in-dialog, unknown dialog, ACK, stray response, retransmission) overlapping in time; decides exactly-one final response, predicted code (first taker / 404 / 481), registration-order consultation, INVITE rejections retransmitted until ACK, silence towards ACKs and responses",
+            "trusts tokio's paused clock, hook H2, WireMsg, the policy layers of the harness",
+            "DESIGN.md 3/C08", "E-world"),
+    'C09': ("exhaustive enumeration of status codes 100..699 and of a routing grid (transport x sent-by kind x port x source relation x maddr x rport x received x Via count) + proptest over request shapes; oracle = independent RFC 3261 18.2.2 / RFC 3581 decision table and reason-phrase table (ref_route), response read back with independent Via / From / To readers",
+            "exploration: status-code and routing-grid sub-spaces exhaustive, request shapes (1..5 Via values, parameters, display names, IPv4/IPv6/host names, datagram and inbound/outbound connections) sampled",
+            "trusts ref_route, WireMsg, mock transports; shapes of the two open findings are excluded by construction and counted",
+            "DESIGN.md 3/C09", "E-world"),
     'C14': ("exhaustive enumeration of the endpoint configuration space (29 952 configurations) + proptest over request sequences against one endpoint; oracle = independent eligibility decision table (ref_select)",
             "exploration, exhaustive over the finite configuration product (datagram subsets x factory configs incl. registration order and connect failure x pre-existing connections x sip/sips x IPv4/IPv6 literal x port x pinning); sequences sampled so that earlier requests create the pre-existing connections",
             "trusts the mock transports/factories, ref_select, tokio paused clock; HashMap order handled by membership in the admissible set",
